@@ -477,6 +477,15 @@ func c08History(r *Rec, hI int, steps int) {
 	}
 	np := k.GetNetworkProperties(base)
 	for st := 0; st < steps; st++ {
+		if r.Rng.Intn(22) == 0 {
+			// governance gives this proposal type a voting period of its own, longer than the network minimum (the
+			// enactment delay still starts at the END of that period)
+			cur := k.GetNetworkProperties(ctxAt())
+			d := cur.MinimumProposalEndTime + []uint64{1, cur.ProposalEnactmentTime / 2, cur.ProposalEnactmentTime, 2*cur.ProposalEnactmentTime + 7}[r.Rng.Intn(4)]
+			if err := k.SetProposalDuration(ctxAt(), govtypes.NewSetNetworkPropertyProposal(govtypes.MinIdentityApprovalTip, govtypes.NetworkPropertyValue{Value: 1}).ProposalType(), d); err == nil {
+				r.Count("proposal-duration-set")
+			}
+		}
 		switch x := r.Rng.Intn(100); {
 		case x < 14: // submit
 			val := nextContent
